@@ -712,7 +712,9 @@ func (ts *TermStore) StrConcat(as ...*Term) *Term {
 	case 1:
 		return res[0]
 	}
-	// lift small ite-trees with constant neighbours? keep simple.
+	if r, ok := ts.liftArgs(res, func(c []*Term) *Term { return ts.StrConcat(c...) }); ok {
+		return r
+	}
 	return ts.mk(OStrConcat, StringSort, res...)
 }
 
@@ -784,6 +786,54 @@ func (ts *TermStore) StrLen(a *Term) *Term {
 	return ts.mk(OStrLen, BVSort(64), a)
 }
 
+// constPrefix returns the longest constant prefix of a string term and whether
+// that prefix is the whole string.
+func constPrefix(t *Term) (string, bool) {
+	if t.IsConst() {
+		return t.Str, true
+	}
+	if t.Op == OStrConcat && t.Args[0].IsConst() {
+		return t.Args[0].Str, false
+	}
+	return "", false
+}
+
+// liftArgs applies f to every combination of constant leaves when all
+// arguments are constants or small ite-trees over constants (finite-domain strings).
+func (ts *TermStore) liftArgs(args []*Term, f func(cs []*Term) *Term) (*Term, bool) {
+	prod := 1
+	anyIte := false
+	for _, a := range args {
+		if a.IsConst() {
+			continue
+		}
+		if a.Op != OIte {
+			return nil, false
+		}
+		n := iteLeafCount(a, liftLimit)
+		if n > liftLimit {
+			return nil, false
+		}
+		anyIte = true
+		prod *= n
+	}
+	if !anyIte || prod > 64 {
+		return nil, false
+	}
+	cur := make([]*Term, len(args))
+	var rec func(i int) *Term
+	rec = func(i int) *Term {
+		if i == len(args) {
+			return f(append([]*Term(nil), cur...))
+		}
+		return ts.lift1(args[i], func(x *Term) *Term {
+			cur[i] = x
+			return rec(i + 1)
+		})
+	}
+	return rec(0), true
+}
+
 func (ts *TermStore) StrAt(a, i *Term) *Term {
 	if a.IsConst() && i.IsConst() {
 		if i.BV < uint64(len(a.Str)) {
@@ -805,6 +855,9 @@ func (ts *TermStore) StrAt(a, i *Term) *Term {
 			}
 			return res
 		}
+	}
+	if r, ok := ts.liftArgs([]*Term{a, i}, func(c []*Term) *Term { return ts.StrAt(c[0], c[1]) }); ok {
+		return r
 	}
 	return ts.mk(OStrAt, StringSort, a, i)
 }
@@ -834,10 +887,65 @@ func (ts *TermStore) StrSubstr(a, off, n *Term) *Term {
 			return ts.StrConcat(u[o:e]...)
 		}
 	}
+	if a.Op == OStrConcat && off.IsConst() && a.Args[0].IsConst() {
+		cp := a.Args[0].Str
+		o := signed(off.BV, 64)
+		// entirely inside the constant prefix
+		if n.IsConst() && o >= 0 && o+signed(n.BV, 64) <= int64(len(cp)) && signed(n.BV, 64) >= 0 {
+			return ts.StrC(cp[o : o+signed(n.BV, 64)])
+		}
+		// from inside/at the end of the constant prefix to the end of the string
+		if o >= 0 && o <= int64(len(cp)) {
+			rest := ts.StrConcat(append([]*Term{ts.StrC(cp[o:])}, a.Args[1:]...)...)
+			if n == ts.StrLen(rest) {
+				return rest
+			}
+		}
+	}
+	if r, ok := ts.liftArgs([]*Term{a, off, n}, func(c []*Term) *Term { return ts.StrSubstr(c[0], c[1], c[2]) }); ok {
+		return r
+	}
 	return ts.mk(OStrSubstr, StringSort, a, off, n)
 }
 
 func (ts *TermStore) StrPred(op Op, a, b *Term) *Term {
+	if !(a.IsConst() && b.IsConst()) {
+		pa, fa := constPrefix(a)
+		pb, fb := constPrefix(b)
+		switch op {
+		case OStrLt, OStrLe:
+			n := len(pa)
+			if len(pb) < n {
+				n = len(pb)
+			}
+			for i := 0; i < n; i++ {
+				if pa[i] != pb[i] {
+					return ts.Bool(pa[i] < pb[i])
+				}
+			}
+			// a is a complete constant and a proper prefix of b's known prefix: a < b
+			if fa && len(pa) < len(pb) {
+				return ts.T
+			}
+			if fa && len(pa) == len(pb) && op == OStrLe {
+				return ts.T // a is a prefix of b
+			}
+			if fb && len(pb) < len(pa) {
+				return ts.F // b is a proper prefix of a
+			}
+		case OStrPrefixOf: // a prefix of b
+			if fa && len(pa) <= len(pb) {
+				return ts.Bool(pb[:len(pa)] == pa)
+			}
+			if fa && !fb {
+				for i := 0; i < len(pb) && i < len(pa); i++ {
+					if pa[i] != pb[i] {
+						return ts.F
+					}
+				}
+			}
+		}
+	}
 	if a.IsConst() && b.IsConst() {
 		switch op {
 		case OStrPrefixOf:
@@ -881,6 +989,16 @@ func (ts *TermStore) StrIndexOf(s, sub, from *Term) *Term {
 			return ts.Int(-1)
 		}
 		return ts.Int(int64(i) + f)
+	}
+	if sub.IsConst() && from.IsConst() && from.BV == 0 && !s.IsConst() {
+		if cp, _ := constPrefix(s); cp != "" {
+			if i := strings.Index(cp, sub.Str); i >= 0 {
+				return ts.Int(int64(i))
+			}
+		}
+	}
+	if r, ok := ts.liftArgs([]*Term{s, sub, from}, func(c []*Term) *Term { return ts.StrIndexOf(c[0], c[1], c[2]) }); ok {
+		return r
 	}
 	return ts.mk(OStrIndexOf, BVSort(64), s, sub, from)
 }
